@@ -446,7 +446,17 @@ func raceKey(report string) string {
 
 var panicLineRe = regexp.MustCompile(`(?m)^(panic:|fatal error:)\s*(.*)$`)
 
+var asanRe = regexp.MustCompile(`ERROR: AddressSanitizer: ([a-zA-Z0-9-]+)`)
+
 func crashKey(tail string) string {
+	if m := asanRe.FindStringSubmatch(tail); m != nil {
+		// first C or Go frame of the report
+		fr := "unknown"
+		if f := regexp.MustCompile(`(?m)^\s+#0 0x[0-9a-f]+ in ([^\s]+)`).FindStringSubmatch(tail); f != nil {
+			fr = f[1]
+		}
+		return "asan/" + m[1] + "/" + fr
+	}
 	m := panicLineRe.FindStringSubmatch(tail)
 	msg := "unknown"
 	if m != nil {
